@@ -61,6 +61,10 @@ def fam_kbu_ticks(ctx, o):
     kbu_rules.run_ticks(ctx.facts, o, ctx.eff)
 
 
+def fam_lb(ctx, o):
+    kbu_rules.run_line_buffers(ctx.facts, o, ctx.eff)
+
+
 def fam_ci(ctx, o):
     kbu_rules.run_cache(ctx.facts, o)
 
@@ -140,7 +144,7 @@ FAMILIES = {
     'ug': fam_ug, 'ab': fam_ab, 'u8': fam_u8, 'px': fam_px,
     'kt': fam_kt, 'kv': fam_kv, 'fr': fam_fr, 'fr_enc': fam_fr_enc, 'ic': fam_ic,
     'ed': fam_ed, 'dg': fam_dg, 'ea': fam_ea, 'kbu_bufs': fam_kbu_bufs, 'kbu_ticks': fam_kbu_ticks,
-    'ci': fam_ci,
+    'ci': fam_ci, 'lb': fam_lb,
 }
 
 # property -> list of (family, [rule ids]) ; rule id prefix match on Inst.rule
@@ -153,12 +157,12 @@ PROPS = {
     },
     'C02': {
         'families': [('kt', ['KT']), ('fr_enc', ['FR-F5']), ('fr', ['FR-F2'])],
-        'floors': {'KT-K1': 33, 'KT-K2': 30, 'KT-K3': 30, 'KT-K4': 20, 'FR-F5': 10},
+        'floors': {'KT-K1': 33, 'KT-K2': 30, 'KT-K3': 30, 'KT-K4': 20, 'KT-K7': 6, 'FR-F5': 10},
         'title': 'Decode -> encode -> decode returns the same map',
     },
     'C03': {
-        'families': [('kv', ['KV']), ('kt', ['KT-K1', 'KT-K2', 'KT-K3']), ('dg', ['DG-D1', 'DG-D2', 'DG-D3'])],
-        'floors': {'KV': 15, 'KT-K1': 33, 'KT-K2': 30},
+        'families': [('kv', ['KV']), ('kt', ['KT-K1', 'KT-K2', 'KT-K3', 'KT-K7']), ('dg', ['DG-D1', 'DG-D2', 'DG-D3'])],
+        'floors': {'KV': 15, 'KT-K1': 33, 'KT-K2': 30, 'KT-K7': 6},
         'title': 'Edits to a decoded map survive encode -> decode',
     },
     'C04': {
@@ -167,8 +171,8 @@ PROPS = {
         'title': 'The encoder only emits text that its own decoder accepts (framing clause)',
     },
     'C05': {
-        'families': [('fr', ['FR-F1', 'FR-F2', 'FR-F3', 'FR-F4', 'SW']), ('dg', ['DG-D4'])],
-        'floors': {'FR-F1': 11, 'FR-F2': 13, 'FR-F3': 6, 'FR-F4': 6, 'SW': 2, 'DG-D4': 18},
+        'families': [('fr', ['FR-F1', 'FR-F2', 'FR-F3', 'FR-F4', 'SW']), ('dg', ['DG-D4']), ('sc', ['SC-C05']), ('lb', ['LB'])],
+        'floors': {'FR-F1': 11, 'FR-F2': 13, 'FR-F3': 6, 'FR-F4': 6, 'SW': 2, 'DG-D4': 18, 'SC-C05': 1, 'LB': 2},
         'title': 'File framing: which lines reach which section parser',
     },
     'C08': {
@@ -193,7 +197,7 @@ PROPS = {
     },
     'C11': {
         'families': [('sc', ['SC-C11']), ('nf', ['NF']), ('kv', ['KV']), ('ea', ['EA'])],
-        'floors': {'SC-C11': 24, 'NF': 15, 'KV': 15, 'EA': 8},
+        'floors': {'SC-C11': 28, 'NF': 15, 'KV': 15, 'EA': 8},
         'title': 'Key/value, event and colour records decode per the format rules',
     },
     'C12': {
@@ -208,7 +212,7 @@ PROPS = {
     },
     'C14': {
         'families': [('sc', ['SC-C14']), ('ss14', ['SS-C14']), ('ab', ['AB'])],
-        'floors': {'SC-C14': 28, 'SS-C14': 8},
+        'floors': {'SC-C14': 30, 'SS-C14': 8},
         'title': 'Hit-object lines decode per the legacy grammar',
     },
     'C15': {
@@ -218,12 +222,12 @@ PROPS = {
     },
     'C19': {
         'families': [('sc', ['SC-C19']), ('sscurve', ['SS-C19'])],
-        'floors': {'SC-C19': 5, 'SS-C19': 10},
+        'floors': {'SC-C19': 13, 'SS-C19': 10},
         'title': 'Position along a curve is a faithful arc-length parametrisation',
     },
     'C20': {
         'families': [('kbu_ticks', ['KBU']), ('sc', ['SC-C20']), ('ss20', ['SS-C20'])],
-        'floors': {'KBU': 1, 'SC-C20': 6, 'SS-C20': 12},
+        'floors': {'KBU': 1, 'SC-C20': 26, 'SS-C20': 13},
         'title': 'Slider event stream has the legacy structure and timing',
     },
     'C18': {
